@@ -1192,6 +1192,30 @@ static void load_seeds(void) {
 			}
 		}
 	}
+	{
+		/* a publications file of more than 65535 bytes (its publication records repeated): it parses, but cannot be written back as one
+		 * 16-bit TLV; offered as it is only (the entry point and its follow-ups: look-ups, refused serialization, verification, release) */
+		int n0 = NSEEDS;
+		for (i = 0; i < n0; i++) if (!strcmp(SEEDS[i].name, "ksi-publications.bin")) {
+			const unsigned char *d = SEEDS[i].d;
+			size_t n = SEEDS[i].n, off = 8, p0 = 0, p1 = 0;
+			rtlv t;
+			while (off < n && rtlv_read(d + off, n - off, &t) == 0) {
+				if (t.tag == 0x703) { if (!p0) p0 = off; p1 = off + t.hdr + t.len; }
+				off += t.hdr + t.len;
+			}
+			if (p0 && p1 > p0) {
+				vbuf o;
+				vb_init(&o);
+				vb_put(&o, d, p1);
+				while (o.n + (n - p1) <= 66000) vb_put(&o, d + p0, p1 - p0);
+				vb_put(&o, d + p1, n - p1);
+				add_seed("big:pubfile.over-64k", o.p, o.n);
+				SEEDS[NSEEDS - 1].quick = 1;
+				vb_free(&o);
+			}
+		}
+	}
 	for (i = 0; i < NSEEDS; i++) for (k = 0; QUICK_SEEDS[k]; k++) if (!strcmp(SEEDS[i].name, QUICK_SEEDS[k])) SEEDS[i].quick = 1;
 	/* user publications file of the rich verification context */
 	vb_init(&g_userpub_bytes);
@@ -1404,6 +1428,7 @@ static void part_seeds(int which) {   /* 0: small seeds, all families but zend; 
 	for (i = 0; i < NSEEDS; i++) {
 		const seed_t *s = &SEEDS[i];
 		if (!seed_selected(s)) continue;
+		if (strncmp(s->name, "big:", 4) == 0) { if (which == 1) seed_cases(s, F_ID); continue; }
 		if (which == 2) { seed_cases(s, F_ZEND); continue; }
 		if (which == 3) {
 			/* full byte sweep: reference-built signatures (quick: the one with legacy-id and metadata links and an authentication
